@@ -210,6 +210,7 @@ fixupL(const int_t n, const int_t *perm_r, GlobalLU_t *Glu)
 {
     register int_t nsuper, fsupc, nextl, i, j, jstrt;
     register int_t *xsup, *xsup_end, *lsub, *xlsub, *xlsub_end;
+    int_t *newsub;
 
     if ( n <= 1 ) return;
 
@@ -219,6 +220,17 @@ fixupL(const int_t n, const int_t *perm_r, GlobalLU_t *Glu)
     xlsub     = Glu->xlsub;
     xlsub_end = Glu->xlsub_end;
     nsuper    = Glu->supno[n];
+
+    /*
+     * A supernode's number and the storage of its subscripts are obtained
+     * in two critical sections, so the lists need not be stored in the
+     * order of the supernode numbers: moving them in place could overwrite
+     * a list that has not been moved yet. Compact through a copy.
+     */
+    nextl     = 0;
+    for (i = 0; i <= nsuper; i++)
+	nextl += xlsub_end[xsup[i]] - xlsub[xsup[i]];
+    newsub    = intMalloc(nextl);
     nextl     = 0;
     
     /* 
@@ -229,11 +241,13 @@ fixupL(const int_t n, const int_t *perm_r, GlobalLU_t *Glu)
 	jstrt = xlsub[fsupc];
 	xlsub[fsupc] = nextl;
 	for (j = jstrt; j < xlsub_end[fsupc]; j++) {
-	    lsub[nextl] = perm_r[lsub[j]]; /* Now indexed into P*A */
+	    newsub[nextl] = perm_r[lsub[j]]; /* Now indexed into P*A */
 	    nextl++;
   	}
 	xlsub_end[fsupc] = nextl;
     }
+    for (j = 0; j < nextl; j++) lsub[j] = newsub[j];
+    SUPERLU_FREE (newsub);
     xlsub[n] = nextl;
 
 #if ( PRNTlevel==1 )
